@@ -255,6 +255,28 @@ theorem adaptLoop_inv (fuel : ℕ) (st0 : AdaptState K) (h0 : AdaptInv Sk lams s
     AdaptInv Sk lams sig2 nfft nwin (adaptLoop Sk lams sig2 tol nfft nwin fuel st0) :=
   adaptLoop_induct Sk lams sig2 tol nfft nwin _ (fun st _ => adaptInv_step Sk lams sig2 nfft nwin st) fuel st0 h0
 
+/-- the invariant without its "not run yet" alternative: the weights are Thomson's formula at `S1` and `S` is the
+    mean of the eigenspectra with those weights.  Every pass establishes it (`adaptInv_step`), so with the first
+    pass unconditional (`pmtmWeights .adapt`) it holds at the returned state whatever the tests say. -/
+def AdaptInvS (Sk : List (List K)) (lams : List K) (sig2 : K) (nfft nwin : ℕ) (st : AdaptState K) :
+    Prop :=
+  (∀ f, f < nfft → ∀ t, t < nwin →
+      nth (st.wk.getD f []) t = adaptWeight (nth lams t) sig2 (nth st.S1 f)) ∧
+   (∀ f, f < nfft →
+      nth st.S f = (∑ t ∈ range nwin, nth (st.wk.getD f []) t * nth (Sk.getD t []) f)
+        / ∑ t ∈ range nwin, nth (st.wk.getD f []) t)
+
+omit [ReOrd K] in
+theorem adaptInvS_step (st : AdaptState K) :
+    AdaptInvS Sk lams sig2 nfft nwin (adaptStep Sk lams sig2 nfft nwin st) :=
+  ⟨fun f hf t ht => by rw [adaptStep_wk_entry Sk lams sig2 nfft nwin st hf ht, adaptStep_S1],
+    fun _ hf => adaptStep_S_entry Sk lams sig2 nfft nwin st hf⟩
+
+theorem adaptLoop_invS (fuel : ℕ) (st0 : AdaptState K) (h0 : AdaptInvS Sk lams sig2 nfft nwin st0) :
+    AdaptInvS Sk lams sig2 nfft nwin (adaptLoop Sk lams sig2 tol nfft nwin fuel st0) :=
+  adaptLoop_induct Sk lams sig2 tol nfft nwin _ (fun st _ => adaptInvS_step Sk lams sig2 nfft nwin st)
+    fuel st0 h0
+
 theorem adaptLoop_shape (fuel : ℕ) (st0 : AdaptState K) (h0 : WkShape nfft nwin st0.wk) :
     WkShape nfft nwin (adaptLoop Sk lams sig2 tol nfft nwin fuel st0).wk :=
   adaptLoop_induct Sk lams sig2 tol nfft nwin (fun st => WkShape nfft nwin st.wk)
@@ -296,10 +318,12 @@ def adaptInit (lams : List K) (SkA : List (List K)) (nfft : ℕ) : AdaptState K 
     wk := vec nfft (fun _ => vec lams.length (fun t => nth lams t))
     i := 0 }
 
+/-- the repaired loop `while (i == 0 or Σ|S-S1|/NFFT > tol) and i < 100`: one unconditional pass from the start
+    state, then at most 99 conditional ones -/
 theorem pmtmWeights_adapt (x lams : List K) (SkA : List (List K)) (nfft : ℕ) (tolc : K) :
     pmtmWeights .adapt x lams SkA nfft tolc
-      = (adaptLoop SkA lams (adaptSig2 x) (tolc * adaptSig2 x / (nfft : K)) nfft lams.length 100
-          (adaptInit lams SkA nfft)).wk := by
+      = (adaptLoop SkA lams (adaptSig2 x) (tolc * adaptSig2 x / (nfft : K)) nfft lams.length 99
+          (adaptStep SkA lams (adaptSig2 x) nfft lams.length (adaptInit lams SkA nfft))).wk := by
   unfold pmtmWeights adaptSig2 adaptInit
   simp only [sumR_eq_sum, abs2_eq, Nat.cast_ofNat]
 
@@ -425,7 +449,7 @@ theorem adaptWeight_bounds {lam sig2 s : R} (hl0 : 0 < lam) (hl1 : lam ≤ 1) (h
   rw [h3] at h2
   exact h2
 
-/-- an eigenvalue in `(0, 1]` is itself in `[0, 1/λ]` (the weights when the loop never runs) -/
+/-- an eigenvalue in `(0, 1]` is itself in `[0, 1/λ]` (the start weights of the loop) -/
 theorem lam_le_inv {lam : R} (hl0 : 0 < lam) (hl1 : lam ≤ 1) : lam ≤ 1 / lam := by
   rw [le_div_iff₀ hl0]
   calc lam * lam ≤ 1 * 1 := mul_le_mul hl1 hl1 hl0.le zero_le_one
